@@ -37,7 +37,7 @@ class Check:
     def _reproduce(self, v, evalname, cases):
         vs, _ = EVALUATORS[evalname](cases, v.variant)
         for w in vs:
-            if w.prop == v.prop and w.signature() == v.signature():
+            if w.prop in (v.prop, v.extra.get('raw_prop')) and w.signature() == v.signature():
                 return w
         return None
     def finish(self):
@@ -100,7 +100,7 @@ class Check:
         d = os.path.join(core.ROOT, 'evidence', 'replays'); os.makedirs(d, exist_ok=True)
         path = os.path.join(d, '%s-%s.json' % (v.prop, core.case_hash({'c': cases, 's': v.signature()})))
         with open(path, 'w') as f:
-            json.dump({'property': v.prop, 'class': v.cls, 'site': v.site, 'detail': v.detail, 'variant': v.variant, 'evaluator': evalname, 'seed': self.seed, 'cases': cases}, f, indent=1)
+            json.dump({'property': v.prop, 'raw_property': v.extra.get('raw_prop', v.prop), 'class': v.cls, 'site': v.site, 'detail': v.detail, 'variant': v.variant, 'evaluator': evalname, 'seed': self.seed, 'cases': cases}, f, indent=1)
         return path
     # ---- bounded minimisation ------------------------------------------------------------------
     def _minimise(self, v, evalname, cases, budget=36, wall=90):
@@ -175,7 +175,7 @@ def replay_file(path, quiet=False):
     core.build(rp['variant'])
     vs, rs = EVALUATORS[rp['evaluator']](rp['cases'], rp['variant'])
     sig = '%s:%s' % (rp['class'], rp['site'])
-    hit = [w for w in vs if w.prop == rp['property'] and w.signature() == sig]
+    hit = [w for w in vs if w.prop in (rp['property'], rp.get('raw_property')) and w.signature() == sig]
     if not quiet:
         for w in vs:
             print('%s %s: %s' % (w.prop, w.signature(), w.detail[:500]))
